@@ -275,6 +275,9 @@ pub struct FrontendCtx<'a, R: FileManager> {
     distributing_over: Vec<(BffFileName, u32, RuntypeUUID)>,
     /// default exports being expanded in place for a qualifier-less import("...") type
     expanding_import_types: Vec<RuntypeUUID>,
+    /// members of the enum whose member initialiser is being typed (innermost last): inside an enum
+    /// body a bare name means an earlier member before it means a value of the module
+    enum_member_scope: Vec<(Vec<swc_ecma_ast::TsEnumMember>, BffFileName, Vec<String>)>,
 }
 
 #[derive(Debug)]
@@ -1159,6 +1162,7 @@ impl<'a, R: FileManager> FrontendCtx<'a, R> {
             typing_exprs: vec![],
             distributing_over: vec![],
             expanding_import_types: vec![],
+            enum_member_scope: vec![],
         }
     }
 
@@ -1278,13 +1282,27 @@ impl<'a, R: FileManager> FrontendCtx<'a, R> {
         walker.get_addressed_item(addr, anchor)
     }
 
+    /// The type of an enum member's initialiser: bare names in it see the other members first.
+    fn typeof_enum_member_init(
+        &mut self,
+        members: &[swc_ecma_ast::TsEnumMember],
+        init: &Expr,
+        file: BffFileName,
+    ) -> Res<Runtype> {
+        self.enum_member_scope
+            .push((members.to_vec(), file.clone(), vec![]));
+        let res = self.typeof_expr(init, true, file);
+        self.enum_member_scope.pop();
+        res
+    }
+
     fn extract_enum_decl(&mut self, typ: &TsEnumDecl, file: BffFileName) -> Res<Runtype> {
         let mut values = vec![];
 
         for member in &typ.members {
             match &member.init {
                 Some(init) => {
-                    let expr_ty = self.typeof_expr(init, true, file.clone())?;
+                    let expr_ty = self.typeof_enum_member_init(&typ.members, init, file.clone())?;
                     values.push(expr_ty);
                 }
                 None => {
@@ -1697,7 +1715,11 @@ impl<'a, R: FileManager> FrontendCtx<'a, R> {
                         TsEnumMemberId::Str(s) => s.value.to_string_lossy() == member_name.as_str(),
                     });
                     return match found.and_then(|it| it.init.clone()) {
-                        Some(init) => self.typeof_expr(&init, true, address.file.clone()),
+                        Some(init) => self.typeof_enum_member_init(
+                            &enum_type.members,
+                            &init,
+                            address.file.clone(),
+                        ),
                         None => self.error(anchor, DiagnosticInfoMessage::EnumMemberNoInit),
                     };
                 };
@@ -2464,6 +2486,27 @@ impl<'a, R: FileManager> FrontendCtx<'a, R> {
                 }
             },
             Expr::Ident(i) => {
+                // inside the body of an enum: `B = A` refers to the member A of the same enum
+                if let Some((members, enum_file, resolving)) = self.enum_member_scope.last().cloned()
+                    && enum_file == file
+                    && !resolving.contains(&i.sym.to_string())
+                    && let Some(init) = members
+                        .iter()
+                        .find(|it| match &it.id {
+                            TsEnumMemberId::Ident(ident) => ident.sym == i.sym,
+                            TsEnumMemberId::Str(s) => s.value.to_string_lossy() == i.sym.as_str(),
+                        })
+                        .and_then(|it| it.init.clone())
+                {
+                    if let Some(top) = self.enum_member_scope.last_mut() {
+                        top.2.push(i.sym.to_string());
+                    }
+                    let res = self.typeof_expr(&init, true, file.clone());
+                    if let Some(top) = self.enum_member_scope.last_mut() {
+                        top.2.pop();
+                    }
+                    return res;
+                }
                 let new_addr = ModuleItemAddress {
                     file: file.clone(),
                     name: i.sym.to_string(),
@@ -2623,7 +2666,11 @@ impl<'a, R: FileManager> FrontendCtx<'a, R> {
                             return self.error(&anchor, DiagnosticInfoMessage::EnumMemberNoInit);
                         };
 
-                        return self.typeof_expr(init, true, enum_file_name.clone());
+                        return self.typeof_enum_member_init(
+                            &from_enum.members,
+                            init,
+                            enum_file_name.clone(),
+                        );
                     }
                 }
                 let obj = self.typeof_expr(&m.obj, as_const, file.clone())?;
@@ -2892,7 +2939,7 @@ impl<'a, R: FileManager> FrontendCtx<'a, R> {
                     return self.error(anchor, DiagnosticInfoMessage::EnumMemberNoInit);
                 };
 
-                self.typeof_expr(init, true, bff_file_name.clone())
+                self.typeof_enum_member_init(&ts_enum_decl.members, init, bff_file_name.clone())
             }
         }
     }
